@@ -320,8 +320,10 @@ func (c *checkSchema) collectAllowedJsonTypes(node ischema.Node, ss map[string]i
 	typesConstraint := node.Constraint(constraint.TypesListConstraintType)
 
 	if typesConstraint == nil {
-		if node.Constraint(constraint.AnyConstraintType) != nil {
-			// A type that says `type: "any"` accepts a value of any json type.
+		if node.Constraint(constraint.AnyConstraintType) != nil ||
+			node.Constraint(constraint.EnumConstraintType) != nil {
+			// A type that says `type: "any"` accepts a value of any json type, and
+			// the values of an enumeration need not have the json type of its example.
 			for _, t := range json.AllTypes {
 				c.allowedJsonTypes[t] = struct{}{}
 			}
